@@ -384,19 +384,23 @@ pub fn run_script(s: &Script) -> Option<Vec<Value>> {
             break; // a panicked operation ends the history (the spec does the same)
         }
     }
-    if unix_now() != sec0 || t0.elapsed() > Duration::from_millis(400) {
+    // virtual time is exact only inside one wall-clock second; configurations without ttl do not care
+    if s.cfg.ttl != 0 && (unix_now() != sec0 || t0.elapsed() > Duration::from_millis(900)) {
         return None;
     }
     Some(out)
 }
 
 pub fn run_script_retry(s: &Script) -> Vec<Value> {
-    for _ in 0..60 {
+    for attempt in 0..60 {
+        if attempt > 0 && s.cfg.ttl != 0 {
+            align_to_second();
+        }
         if let Some(v) = run_script(s) {
             return v;
         }
     }
-    panic!("could not run a trace within one wall-clock second after 20 attempts");
+    panic!("could not run a trace within one wall-clock second after 60 attempts");
 }
 
 /// `engine --script <jsonl> --out <ndjson>`
@@ -426,7 +430,7 @@ fn pick<'a, T>(rng: &mut StdRng, xs: &'a [T]) -> &'a T {
 }
 
 /// Random configuration within the bounds the specification's score table covers.
-pub fn random_cfg(rng: &mut StdRng, flavours: &[&str], policies: &[&str]) -> Cfg {
+pub fn random_cfg(rng: &mut StdRng, flavours: &[&str], policies: &[&str], weights: &[&str]) -> Cfg {
     let policy = pick(rng, policies).to_string();
     let flavour = pick(rng, flavours).to_string();
     let limit = *pick(rng, &[0usize, 1, 2, 3, 4, 6]);
@@ -440,7 +444,7 @@ pub fn random_cfg(rng: &mut StdRng, flavours: &[&str], policies: &[&str]) -> Cfg
         maxmem = 7;
     }
     let w = if policy == "tlru" {
-        pick(rng, &["none", "0.1", "0.3", "1", "1.5", "3", "5000"]).to_string()
+        pick(rng, weights).to_string()
     } else {
         "none".to_string()
     };
@@ -512,7 +516,7 @@ pub fn random_script(rng: &mut StdRng, id: i64, cfg: Cfg, len: usize, nkeys: usi
     Script { id, cfg, ops }
 }
 
-/// `engine-rand --seed S --traces N --len L --keys K --out <ndjson> [--flavours a,b] [--policies x,y]`
+/// `engine-rand --seed S --traces N --len L --keys K --out <ndjson> [--flavours a,b] [--policies x,y] [--weights w,..]`
 pub fn cmd_random(args: &[String]) -> i32 {
     let seed: u64 = arg_num(args, "--seed", 1);
     let traces: usize = arg_num(args, "--traces", 100);
@@ -521,12 +525,14 @@ pub fn cmd_random(args: &[String]) -> i32 {
     let out = arg(args, "--out").expect("--out");
     let fl = arg_or(args, "--flavours", "sync,thread,async");
     let po = arg_or(args, "--policies", "fifo,lru,lfu,arc,random,tlru");
+    let we = arg_or(args, "--weights", "none,0.1,0.3,1,1.5,3");
     let flavours: Vec<&str> = fl.split(',').collect();
     let policies: Vec<&str> = po.split(',').collect();
+    let weights: Vec<&str> = we.split(',').collect();
     let mut rng = StdRng::seed_from_u64(seed);
     let mut w = TraceWriter::create(out);
     for i in 0..traces {
-        let cfg = random_cfg(&mut rng, &flavours, &policies);
+        let cfg = random_cfg(&mut rng, &flavours, &policies, &weights);
         let s = random_script(&mut rng, i as i64, cfg, len, nkeys);
         w.emit_all(&run_script_retry(&s));
     }
